@@ -72,6 +72,7 @@ def run(chk):
     maps(chk, wa)
     procs(chk, wa, thorough)
     strs(chk, wa)
+    flows(chk, wa, thorough)
     chk.sample({"call": kernel.call(cs[0]), "want": kernel.expected_rt(cs[0], signed)})
     chk.sample({"call": kernel.call(cs[len(cs) // 2]), "want": kernel.expected_rt(cs[len(cs) // 2], signed)})
     chk.cov["exhaustive"] = True
@@ -297,6 +298,62 @@ def strs(chk, wa):
                 chk.report("C01:strings:%s" % c["fn"], "%s(%s) prints %r; Go's semantics give %r" % (c["fn"], json.dumps([x["v"] for x in c["a"]]), got[i], want(c)), {"case": c, "got": got[i]})
     chk.cov["string_cases"] = len(cs)
     chk.sample({"string_case": cs[len(cs) // 2], "expected_line": want(cs[len(cs) // 2])})
+
+
+FLOW_ATOM = {"a=0": "a = 0", "a=1": "a = 1", "a=b": "a = b", "b=a": "b = a", "b=c": "b = c", "c=a": "c = a", "c=b": "c = b", "a++": "a++", "b+=a": "b += a", "c=i": "c = i",
+             "if a==0 {b=7}": "if a == 0 {\n\t\t\tb = 7\n\t\t}", "if b>c {continue}": "if b > c {\n\t\t\tcontinue\n\t\t}", "if c>1 {break}": "if c > 1 {\n\t\t\tbreak\n\t\t}",
+             "if a<b {a=5} else {c=9}": "if a < b {\n\t\t\ta = 5\n\t\t} else {\n\t\t\tc = 9\n\t\t}"}
+FLOW_RUNS = [(1, 2, 3, 0), (1, 2, 3, 1), (1, 2, 3, 3), (0, 0, 0, 0), (0, 0, 0, 1), (0, 0, 0, 3)]
+
+
+def flows(chk, wa, thorough):
+    """WaFlow.tla: loops with loop-carried variables, break/continue, conditional assignment - every body up to length 3 (4 in thorough)"""
+    import os
+    res = common.run_tlc("lang", "WaFlow", "flow4.cfg" if thorough else "flow.cfg", collect_prefix='<<"T"', timeout=3000)
+    if res.violated:
+        raise MachineryError("WaFlow.tla violates " + res.violated)
+    chk.tlc(res, "WaFlow (loops, loop-carried variables, break/continue)")
+    ps = [json.loads(common.parse_printt(l, "T")[0]) for l in res.lines]
+    ps.sort(key=lambda p: p["body"])
+    batches = list(common.chunks(list(enumerate(ps)), 250))
+    d = common.subdir("c01f")
+
+    def fn(i, p):
+        body = "".join("\t\t%s\n" % FLOW_ATOM[a] for a in p["body"])
+        # the variables are locals initialised with constants (every edge into the loop header carries a constant or a loop value), once per initial state
+        return "".join("func flow%d_%d(n: int) {\n\ta := %d\n\tb := %d\n\tc := %d\n\tfor i := 0; i < n; i++ {\n%s\t}\n\tprintln(a, b, c)\n}\n\n" % ((i, k) + init + (body,))
+                       for k, init in enumerate([(1, 2, 3), (0, 0, 0)]))
+
+    def job(kb):
+        k, batch = kb
+        src = "".join(fn(i, p) for i, p in batch) + "func main {\n" + "".join(
+            "\tprintln(\"P\", %d)\n" % i + "".join("\tflow%d_%d(%d)\n" % (i, 0 if r[0] == 1 else 1, r[3]) for r in FLOW_RUNS) for i, p in batch) + "}\n"
+        f = os.path.join(d, "f%d.wa" % k)
+        open(f, "w").write(src)
+        rc, so, se, to = common.run_child([wa, "run", f], timeout=300, cwd=d)
+        os.unlink(f)
+        return batch, rc, so, se, to
+    for batch, rc, so, se, to in common.parallel(job, list(enumerate(batches))):
+        got, cur = {}, None
+        for l in so.splitlines():
+            t = l.split()
+            if len(t) == 2 and t[0] == "P":
+                cur = int(t[1])
+                got[cur] = []
+            elif cur is not None:
+                got[cur].append(l.strip())
+        for i, p in batch:
+            chk.add("traces_validated_against_impl", 1)
+            want = [" ".join(str(v) for v in r) for r in p["runs"]]
+            if i not in got or len(got[i]) < len(want):
+                chk.report("C01:flow:abort", "the program stops (status %s%s) in the loop body [%s]: %s" % (rc, ", timeout" if to else "", "; ".join(p["body"]), (se or so)[-200:]), {"body": p["body"]})
+                break
+            if got[i] != want:
+                k = next(j for j in range(len(want)) if got[i][j] != want[j])
+                chk.report("C01:flow:%s" % "+".join(sorted(set(p["body"]))).replace(" ", ""), "the loop body [%s] started with (a, b, c, n) = %s ends with %s; Go's semantics give %s" % (
+                    "; ".join(p["body"]), FLOW_RUNS[k], got[i][k], want[k]), {"body": p["body"], "source": fn(i, p), "got": got[i], "want": want})
+    chk.cov["flow_programs"] = len(ps)
+    chk.sample({"flow_program": ps[len(ps) // 2]})
 
 
 def replay(chk, path):
